@@ -66,16 +66,38 @@ def early_death_spec():
     return gen()
 
 
+def control_flow_cases() -> list[dict]:
+    """Every exception type labtech itself uses for control flow x backend: a task failing with it (a reader and an unrelated sibling
+    next to it) is just a failed task."""
+    from pbt.universe import vu
+    cases = []
+    for backend in ('serial', 'fork', 'controlled'):
+        for mode in vu.CONTROL_FLOW_MODES:
+            for cof in (True, False):
+                nodes = [{'id': 0, 'type': 'NN', 'name': 'n0', 'mode': mode, 'read': True, 'payload': None, 'deps': {'s': None}},
+                         {'id': 1, 'type': 'N1', 'name': 'n1', 'mode': 'ok', 'read': True, 'payload': None, 'deps': {'ref': 0, 'fresh': False}},
+                         {'id': 2, 'type': 'N1', 'name': 'n2', 'mode': 'ok', 'read': True, 'payload': 2, 'deps': {'s': None}},
+                         {'id': 3, 'type': 'Z', 'name': 'n3', 'mode': 'ok', 'read': False, 'payload': 3, 'deps': {'ref': 0, 'fresh': False}}]
+                cases.append({'nodes': nodes, 'requested': [{'ref': i, 'fresh': False} for i in (1, 0, 2, 3)],
+                              'lab': {'backend': backend, 'max_workers': 2, 'continue_on_failure': cof, 'bust_cache': False, 'storage': 'local',
+                                      'displays': False, 'context': {}}, 'pre_cached': [], 'schedule': []})
+    return cases
+
+
 def plan(tier: str) -> list[dict]:
     q = tier == 'quick'
     jobs = list(dagprop.std_plan(tier, controlled=(10, 120, 2500), serial=(2, 200, 2500), fork=(3, 20, 500), spawn=(1, 6, 120))) + dagprop.exhaustive_jobs(tier, 4)
     jobs.append({'engine': 'fork+displays+early-death', 'n': 6 if q else 150, 'hashseed': 5})
+    jobs.append({'engine': 'control-flow-exceptions', 'hashseed': 6})
     return jobs
 
 
 def run_job(rec: core.Recorder, job: dict, seed: int) -> None:
     if job['engine'] == 'exhaustive-small':
         dagprop.run_exhaustive_job(rec, job, judge_obs, failing=True, cached=False)
+        return
+    if job['engine'] == 'control-flow-exceptions':
+        core.run_cases(rec, 'control-flow-exceptions', control_flow_cases(), check)
         return
     if job['engine'] == 'fork+displays+early-death':
         core.run_hypothesis(rec, job['engine'], early_death_spec(), check, max_examples=job['n'], seed=seed, shrink=False)
